@@ -67,7 +67,7 @@ func site(st string) string {
 	for _, l := range strings.Split(st, "\n") {
 		l = strings.TrimSpace(l)
 		if strings.HasPrefix(l, "github.com/tjfoc/gmsm/") {
-			if i := strings.Index(l, "("); i > 0 {
+			if i := strings.LastIndex(l, "("); i > 0 {
 				l = l[:i]
 			}
 			return strings.TrimPrefix(l, "github.com/tjfoc/gmsm/")
@@ -551,7 +551,7 @@ var Prop = &harness.Prop{
 		for _, es := range []uint16{gmref.SuiteECDHERSAGCM, gmref.SuiteECDHEECDSAGCM} {
 			u = append(u, ecdheUnit(es, true), ecdheUnit(es, false))
 		}
-		u = append(u, tlsTicketIdentityUnit())
+		u = append(u, tlsTicketIdentityUnit(), nameMatrixUnit())
 		chd := 4
 		if tier == "thorough" {
 			chd = 5
